@@ -48,6 +48,7 @@ class Shadow:
         self.live = weakref.WeakKeyDictionary()  # ChannelMap -> {id: weakref(chan)}
         self.case = None
         self.delay_peer_open = 0.0
+        self.race = None  # armed by run_race: dict(peer_inside=Event, local_done=Event, pause=s)
 
     def table(self, m):
         t = self.live.get(m)
@@ -84,6 +85,8 @@ class Shadow:
                     ctx.count("boundary_ids_registered")
                 r = o_put(m, chanid, chan)
                 sh.table(m)[chanid] = weakref.ref(chan)
+                if sh.race is not None and path == "open_channel":
+                    sh.race["local_done"].set()
                 return r
 
         def delete(m, chanid):
@@ -112,6 +115,29 @@ class Shadow:
                     ctx.count("skips_over_live_id")
             return cid
 
+        o_get = ChannelMap.get
+
+        def get(m, chanid):
+            r = o_get(m, chanid)
+            race = sh.race
+            if race is not None and r is None and not race["peer_inside"].is_set():
+                f = sys._getframe(1)
+                if f.f_code.co_name == "_next_channel":
+                    names = []
+                    g = f.f_back
+                    while g is not None and len(names) < 3:
+                        names.append(g.f_code.co_name)
+                        g = g.f_back
+                    if "_parse_channel_open" in names:
+                        # yield point: the peer-open path has just seen its candidate id free and has not yet
+                        # advanced the counter.  Let a local open run now (it cannot, if the lock is held).
+                        race["peer_inside"].set()
+                        ctx.count("peer_open_paused_in_next_channel")
+                        if race["local_done"].wait(race["pause"]):
+                            ctx.count("local_open_registered_during_pause")
+            return r
+
+        ChannelMap.get = get
         ChannelMap.put, ChannelMap.delete, Transport._next_channel = put, delete, _next_channel
 
         from paramiko.channel import Channel
@@ -269,11 +295,73 @@ def run_case(ctx, sh, case, rng):
         p.close()
 
 
+def run_race(ctx, sh, rng, trials):
+    """Deterministic yield injection for one race: the server's transport thread handles a peer CHANNEL_OPEN and is
+    paused inside _next_channel right after ChannelMap.get() reported its candidate id free (before the counter
+    moves); meanwhile an application thread calls open_channel on the same (server) transport.  Judged by the
+    shadow-set monitor (duplicate registration / _next_channel returning a live id)."""
+    p = pair.Pair(rng=rng)
+    p.server.policy.update(check_channel_x11_request=True)
+    sh.case = dict(kind="local-open-vs-peer-open", trials=trials)
+    keep, inbound = [], []
+    try:
+        if not p.start() or not p.auth():
+            ctx.inconclusive("handshake failed (race stratum)")
+            return
+        boot = p.tc.open_session()
+        keep.append(boot)
+        boot.request_x11(handler=lambda ch, addr: inbound.append(ch))
+        for k in range(trials):
+            with p.ts.lock:
+                p.ts._channel_counter = rng.choice((5, 100, LIMIT - 1, LIMIT - 2, 0))
+            race = dict(peer_inside=threading.Event(), local_done=threading.Event(), pause=0.15)
+            errs = []
+
+            def peer_open():
+                try:
+                    keep.append(p.tc.open_session(timeout=30))
+                except Exception as e:
+                    errs.append(repr(e))
+
+            def local_open():
+                if not race["peer_inside"].wait(10):
+                    errs.append("peer open never reached _next_channel")
+                    return
+                ctx.count("local_open_started_during_pause")
+                try:
+                    keep.append(p.ts.open_x11_channel(("x", 6000 + k)))
+                except Exception as e:
+                    errs.append(repr(e))
+
+            tl = threading.Thread(target=local_open, daemon=True)
+            tp = threading.Thread(target=peer_open, daemon=True)
+            sh.race = race
+            tl.start()
+            tp.start()
+            tp.join(60)
+            tl.join(60)
+            sh.race = None
+            if tp.is_alive() or tl.is_alive():
+                ctx.inconclusive("race trial did not finish")
+                return
+            if errs and not ctx.violations:
+                ctx.inconclusive("race trial errors: %s" % errs[:2])
+            ctx.count("race_trials")
+        p.wait_quiet(0.02, 5)
+        wire_crosscheck(ctx, p, sh.case)
+        ctx.case(("c23-race", ctx.shard, trials), sample=sh.case)
+    finally:
+        sh.race = None
+        sh.case = None
+        p.close()
+
+
 def run(ctx):
     cm.install()
     sh = Shadow(ctx)
     sh.install()
     rng = ctx.rng
+    ctx.guard(run_race, ctx, sh, rng, ctx.pick(6, 30))
     n = ctx.pick(15, 200)
     dl = ctx.deadline(30, 400)
     for i in range(n):
@@ -293,3 +381,6 @@ def run(ctx):
     ctx.require("opens_rejected", 20)
     ctx.require("releases_seen", 200)
     ctx.require("boundary_ids_registered", 20)
+    ctx.require("race_trials", 30)
+    ctx.require("peer_open_paused_in_next_channel", 30)
+    ctx.require("local_open_started_during_pause", 30)
